@@ -8,8 +8,9 @@
    list of Number tokens; the rule is then evaluated on that list. *)
 Require Import Base Overlap Suggestion Tables_number Number NumberArith ListLemmas SuggestionProofs.
 Require Import NumberLex NumberPasses NumberProofs C17Texts.
-From Coq Require Import List Arith NArith Bool Lia.
+From Coq Require Import String List Arith NArith Bool Lia.
 Import ListNotations.
+Local Open Scope list_scope.
 
 (* ------------------------------------------------------------------------------------------------ *)
 (* sub K K2 l l' : l' is l after some K-tokens were replaced by K2-tokens and some K-tokens were removed *)
@@ -593,3 +594,9 @@ Proof.
   { apply forallb_forall. pose proof (render_digits n) as HD. rewrite Forall_forall in HD. exact HD. }
   rewrite E1, E2. cbn [negb andb]. apply N.ltb_lt. exact H.
 Qed.
+
+(* the instance list of Example C17_ex_list (Properties/C17.v) *)
+Local Open Scope string_scope.
+Definition ex_list : list inst :=
+  [mkinst [] (txt "3") 116 104; mkinst (txt " ") (txt "2") 115 116; mkinst (txt ", ") (txt "11") 116 104;
+   mkinst (txt " and ") (txt "113") 114 100; mkinst (txt ", ") (txt "0021") 83 84]%N.
